@@ -200,6 +200,18 @@ CHECKS = {
         note="In-memory queues with pickle round trip, virtual loop, MockTransport; simulator ids strictly increase, events never re-sent, no empty event list, events "
              "well-formed; a stale poll repeats the immediately preceding ack; no two simulators share a seed URL; teardown may drop pending injections; injected events "
              "are only required to keep FIFO order among themselves; the wake-up PlacesQuery is observed, not demanded."),
+    "C19": dict(
+        category="model_checking", design_ref="DESIGN.md §4 C19",
+        technique="explicit-state BFS with deviation bounding over the real client endpoint under a virtual loop/clock (history-replay successors, canon-deduplicated "
+                  "states, determinism rechecks) against a plain reference model",
+        text="BFS over the real HippoClientProtocol.datagram_received, Session and Region handlers, Circuit and the resend task: every history up to 7 events (quick 5) "
+             "with at most 3 deviations over peer packets id 1..3 x chat/ping x reliable/RESENT/duplicate/out-of-order/task-deferral, both ack forms for every subset of "
+             "outstanding ids plus stale and future ids, client reliable and unreliable sends, and ticks short of, past and across the retry budget, in three "
+             "subscriber/circuit configurations (solo, shared Event, pre-handshake). Twelve oracle clauses against a reference model (always ack, dispatch at most once "
+             "per subscriber incl. region level, unreliable always delivered, completion exactly on ack, failure exactly at budget, ids strictly increasing).",
+        note="One region; at most 2 reliable and 1 unreliable client sends per history; a peer never reuses a packet id for a different message; acks and ping replies "
+             "are demanded by the next loop quiescence; one 0.5 s resend-poll period of lateness allowed, never earliness; retry budget and interval read from the code; "
+             "hmc.refwire and a 20-line header decoder trusted; template mtime reload disabled and MessageDotXML memoised by the harness."),
 }
 
 PENDING_REASON = "check not built yet (build in progress; will be claimed once its harness exists)"
